@@ -149,6 +149,7 @@ type polCase struct {
 	Deny      []string      `json:"deny,omitempty"`
 	Localhost string        `json:"localhost"`
 	TimeFrame []string      `json:"time_frame,omitempty"`
+	TZMin     int           `json:"tz_offset_min,omitempty"` // local time zone of the proxy host, minutes east of UTC
 	Start     time.Duration `json:"start"` // clock offset from Sat 2000-01-01 00:00 before anything starts
 	// routing
 	FlakyDial int       `json:"flaky_dial,omitempty"` // the first N connection attempts to every address are refused (the dialer retries)
@@ -594,6 +595,12 @@ func runPol(env *core.Env, c *polCase, oracle func(w *polWorld, s *sut.SUT)) {
 	env.Sched.Knobs.MaxSteps = 200000
 	env.Sched.Knobs.Horizon = 2000 * time.Hour
 	sut.Install(env)
+	if c.TZMin != 0 {
+		// the allowed time frame is evaluated in local time
+		saved := time.Local
+		time.Local = time.FixedZone(fmt.Sprintf("SIM%+d", c.TZMin), c.TZMin*60)
+		env.Cleanup(func() { time.Local = saved })
+	}
 	w := newPolWorld(env, c)
 	w.setup()
 	if c.FlakyDial > 0 {
